@@ -1,7 +1,7 @@
 ---------------------------- MODULE TranscriptsMC ----------------------------
 (* Model-checking instances of Transcripts: constants that a .cfg cannot hold. *)
 EXTENDS Transcripts
-AllFams == {"trn", "ctm", "tg", "tok"}
+AllFams == {"trn", "trnid", "ctm", "tg", "tgu", "tok"}
 \* <<start, dur>> in ms; <<-1, 0>> = a bare token.  Multiples of 125 ms are dyadic in seconds (float
 \* arithmetic of the implementation is exact); 570 / 290 ms are not (only the one-frame bound is judged)
 TokTimesQuick == {<<-1, 0>>, <<0, 0>>, <<0, 125>>, <<125, 250>>, <<1375, 0>>, <<1375, 125>>, <<570, 290>>}
@@ -13,4 +13,19 @@ ShiftsThorough == {0, 1, 10, 20, 25, 125, 1000}
 \* durations that are not whole milliseconds; the driver divides every number by 8 (records marked upm = 8)
 TokTimesSubMs == {<<-1, 0>>, <<0, 0>>, <<19, 9>>, <<20, 3>>, <<4, 0>>, <<83, 17>>, <<1003, 5>>}
 ShiftsSubMs == {1, 2}
+\* TextGrid entries listed in any order: <<start, dur>> in ms.  <<0, 3000>> encloses most of the others (a phrase
+\* listed with the words it spans); 10400 crosses 10 s; 1240 / 260 with length 0 are points; none of the values
+\* is half way between two multiples of 0.1 s or 0.01 s
+TgUTimesQuick == {<<0, 3000>>, <<260, 740>>, <<1500, 500>>, <<2000, 740>>, <<520, 740>>, <<10400, 260>>,
+                  <<1240, 0>>, <<260, 0>>}
+TgUTimesThorough == TgUTimesQuick \cup {<<2740, 260>>, <<9870, 1120>>}
+\* id bodies: one letter; two letters around a space ("spk1 utt1")
+TrnIdCoresQuick == {<<1>>, <<1, 0, 2>>}
+TrnIdCoresThorough == TrnIdCoresQuick \cup {<<2, 0, 0, 1>>}
+\* Deliberately wrong variants (substituted through a cfg: `TguLo <- TguLoFirstListed` ...) that the invariants
+\* of the two families must reject -- otherwise the universes could not tell them from the right ones
+TguLoFirstListed(tr, p) == RoundTo(tr[1].s, p)                                  \* "the tier starts with the first entry listed"
+TguHiLastListed(tr, p) == RoundTo(tr[Len(tr)].s + tr[Len(tr)].d, p)              \* "... and ends with the last one"
+ReadIdStripping(line) ==                                                        \* "the id is stripped like the rest of the line"
+  LET t == StripW(line) IN StripW(SubSeq(t, RIndex(t, ChLP) + 1, RIndex(t, ChRP) - 1))
 =============================================================================
